@@ -597,3 +597,5 @@ for _pid in ("C01", "C09", "C17"):
     V(_pid, "twin: no branch for noise points (min_samples is 1 at every call)", "silent", (GEO, "        if i_clust == -1:\n            cluster_groups.append([i_atom])\n        else:\n            group_map[i_clust].append(i_atom)\n", "        group_map[i_clust].append(i_atom)\n"))
 V("C16", "vacancy cell number taken after wrapping the position", "R16.1", (GEO, "copy_index = np.floor(to_scaled(cell, position, wrap=False)[0])", "copy_index = np.floor(to_scaled(cell, position, wrap=True)[0])"))
 V("C20", "twin: a wrapping conversion inside get_matches is C16's business", "silent", (GEO, "copy_index = np.floor(to_scaled(cell, position, wrap=False)[0])", "copy_index = np.floor(to_scaled(cell, position, wrap=True)[0])"))
+for _pid, _rid in (("C18", "R18.8"), ("C04", "R04.10")):
+    V(_pid, "size guard of simulation-cell spans runs when the spans are not both cell vectors", _rid, (PFD, "                if n_periodic_spans_selected == 2:", "                if n_periodic_spans_selected != 2:"))
